@@ -6,6 +6,8 @@ import TenpyModel.Ops.GraphSpec
 import TenpyModel.Ops.Bond
 import TenpyModel.Ops.Model
 import TenpyModel.Ops.Dense
+import TenpyModel.C10.ExtMPO
+import TenpyModel.C10.ExtOps
 open Lean TenpyModel TenpyModel.J
 open TenpyModel.Ops
 
@@ -305,9 +307,180 @@ def handleModel (j : Json) : Except String Json := do
     ("rep", ofCanon rep), ("herm", canonEq rep repDag),
     ("bonds", bonds), ("dense", dense)]
 
+
+/-! ### extension round: MPOGraph -> MPO (grids, leg charges) and the representation-changing MPO methods -/
+section ext
+open TenpyModel.C10Ext
+
+/-- charge vectors (missing components count as 0) -/
+structure QV where
+  v : List Int
+deriving DecidableEq
+
+def QV.zipPad (f : Int → Int → Int) : List Int → List Int → List Int
+  | [], [] => []
+  | a :: as, [] => f a 0 :: QV.zipPad f as []
+  | [], b :: bs => f 0 b :: QV.zipPad f [] bs
+  | a :: as, b :: bs => f a b :: QV.zipPad f as bs
+
+instance : Add QV := ⟨fun a b => ⟨QV.zipPad (· + ·) a.v b.v⟩⟩
+instance : Sub QV := ⟨fun a b => ⟨QV.zipPad (· - ·) a.v b.v⟩⟩
+instance : Zero QV := ⟨⟨[]⟩⟩
+
+/-- `chinfo.make_valid`: component `k` modulo `mod[k]` unless `mod[k] = 1` -/
+def qvValid (mod : List Int) (q : QV) : QV :=
+  ⟨(mod.zipIdx).map (fun (m, k) => let x := q.v.getD k 0; if m = 1 then x else x.emod m)⟩
+
+/-- order of `np.lexsort(charges.T)`: the last component is the primary key -/
+def qvLt (a b : QV) : Bool :=
+  let rec go : List Int → List Int → Bool
+    | [], _ => false
+    | _, [] => false
+    | x :: xs, y :: ys => if x < y then true else if y < x then false else go xs ys
+  go a.v.reverse b.v.reverse
+
+def parseKey (j : Json) : Except String Key :=
+  match j with
+  | .str s => pure (.str s)
+  | _ => do
+    let a ← getArr j
+    let atoms ← a.mapM (fun x => match x with
+      | .str s => pure (Atom.s s)
+      | _ => do return Atom.n (← getInt x))
+    return .tup atoms
+
+def errTag : Err → String
+  | .key => "KeyError" | .value => "ValueError" | .zeroDiv => "ZeroDivisionError"
+  | .assertion => "AssertionError" | .index => "IndexError" | .type => "TypeError" | .other => "Exception"
+
+def optNatJson : Option Nat → Json
+  | none => Json.null
+  | some n => Json.num (JsonNumber.fromNat n)
+
+def gridJson (G : Grid GQ) : Json :=
+  ofList (ofList (fun (s : Sym GQ) => ofList (fun (p : OpStr × GQ) => Json.arr #[ofList Json.str p.1, ofGQ p.2]) s)) G
+
+def bcJson : Bc → Json
+  | .finite => "finite" | .segment => "segment" | .infinite => "infinite"
+
+def mpoJson (m : GMPO GQ QV) : Json :=
+  obj [("bc", bcJson m.bc), ("grids", ofList gridJson m.grids), ("IdL", ofList optNatJson m.idL),
+       ("IdR", ofList optNatJson m.idR), ("legs", ofList (ofList (fun (q : QV) => ofIntList q.v)) m.legs),
+       ("max_range", maxRangeJson m.maxRange), ("grouped", m.grouped), ("ucw", m.ucw), ("chi", ofNatList m.chi)]
+
+/-- canonical formal sum of a (finite / segment) MPO, or of `window` unit cells of an infinite one -/
+def mpoCanon (m : GMPO GQ QV) (window : Nat) : List (SitedStr × GQ) :=
+  canon 0 (if m.bc = Bc.infinite then m.denoteWindow window else m.denote)
+
+def applyOp (cd : ChargeData QV) (m : GMPO GQ QV) (j : Json) : Except String (Except Err (GMPO GQ QV)) := do
+  match ← getArr j with
+  | [.str "group", n] => return groupSites m (← getNat n)
+  | [.str "enlarge", num, den] => return enlargeUnitCell m (← getInt num) (← getNat den)
+  | [.str "segment", a, b] => return extractSegment m (← getInt a) (← getInt b)
+  | [.str "sort"] => return sortLegcharges m cd.lt
+  | _ => throw "unknown MPO op"
+
+def runChain (cd : ChargeData QV) (m : GMPO GQ QV) (ops : List Json) (window : Nat) (pathsMax : Nat) :
+    Except String Json := do
+  let mut cur := m
+  let mut win := window       -- number of unit cells of the *current* MPO covering the base window
+  for (o, k) in ops.zipIdx do
+    match ← applyOp cd cur o with
+    | .error e => return obj [("error", errTag e), ("step", k)]
+    | .ok m' =>
+      -- an enlarged unit cell covers `factor` old ones
+      match ← getArr o with
+      | [.str "enlarge", num, _] => win := win / (← getInt num).toNat
+      | _ => pure ()
+      cur := m'
+  let chiMax := cur.chi.foldl max 0
+  let small := cur.L * (if cur.bc = Bc.infinite then max win 1 else 1) ≤ pathsMax && chiMax ≤ 40
+  return obj [("mpo", mpoJson cur),
+              ("denote", if small then ofCanon (mpoCanon cur (max win 1)) else Json.null),
+              ("window", Json.num (JsonNumber.fromNat (max win 1)))]
+
+def parseChargeData (j : Json) (L : Nat) : Except String (ChargeData QV × (Nat → String → Bool)) := do
+  let mod ← intList (← field j "mod")
+  let opq ← listOf (fun s => listOf (fun p => do
+    match ← getArr p with
+    | [n, q] => return (← getStr n, (⟨← intList q⟩ : QV))
+    | _ => throw "bad opq") s) (← field j "opq")
+  let wq : List QV ← match fieldD j "wq" Json.null with
+    | .null => pure []
+    | w => listOf (fun q => do return (⟨← intList q⟩ : QV)) w
+  let qop (i : Nat) (name : String) : QV :=
+    match (opq.getD (i % max L 1) []).find? (fun p => p.1 = name) with
+    | some p => p.2
+    | none => 0
+  let okOp (i : Nat) (name : String) : Bool := (opq.getD (i % max L 1) []).any (fun p => p.1 = name)
+  return (⟨okOp, qop, fun i => wq.getD i 0, qvValid mod, qvLt⟩, okOp)
+
+def extOfGraph (j : Json) (g : Graph GQ) : Except String Json := do
+  let L := g.L
+  let (cd, _) ← parseChargeData j L
+  let ucw ← getNat (fieldD j "ucw" (1 : Nat))
+  let window ← getNat (fieldD j "window" (1 : Nat))
+  let pathsMax ← getNat (fieldD j "paths_max" (12 : Nat))
+  let chains ← getArr (fieldD j "chains" (Json.arr #[]))
+  let graphJ := obj [("edges", edgesJson g), ("states", ofList (ofList ofKey) g.orderedStates),
+                     ("max_range", maxRangeJson g.maxRange)]
+  -- the pieces of build_MPO on their own (each may raise on its own)
+  let gridsJ : Json := match buildGrids g with
+    | .ok gr => ofList gridJson gr
+    | .error e => obj [("error", errTag e)]
+  let legsJ : Json := match legcharges g cd with
+    | .ok lg => ofList (ofList (fun (q : QV) => ofIntList q.v)) lg
+    | .error e => obj [("error", errTag e)]
+  match buildMPO g cd ucw with
+  | .error e => return obj [("graph", graphJ), ("grids", gridsJ), ("legs", legsJ), ("base", obj [("error", errTag e)])]
+  | .ok m =>
+    let small := L * (if g.infinite then window else 1) ≤ pathsMax && (m.chi.foldl max 0) ≤ 40
+    let cG : List (SitedStr × GQ) := canon 0 (if g.infinite then pathsFrom Key.IdR (List.replicate window g.layers).flatten Key.IdL else denoteGraph g)
+    let cM := mpoCanon m window
+    let chainsJ ← chains.mapM (fun c => do runChain cd m (← getArr c) window pathsMax)
+    return obj [("graph", graphJ), ("grids", gridsJ), ("legs", legsJ), ("base", obj [("mpo", mpoJson m)]),
+                ("denote", if small then ofCanon cM else Json.null),
+                ("denote_graph_ok", if small then Json.bool (canonEq cG cM) else Json.null),
+                ("chains", Json.arr chainsJ.toArray)]
+
+def handleExtGraph (j : Json) : Except String Json := do
+  let L ← getNat (← field j "L")
+  let infinite ← getBool (fieldD j "infinite" false)
+  let mut g : Graph GQ := Graph.empty L infinite
+  match fieldD j "max_range" (0 : Nat) with
+  | .null => g := { g with maxRange := .unknown }
+  | .str _ => g := { g with maxRange := .inf }
+  | r => g := { g with maxRange := .fin (← getInt r) }
+  for a in ← getArr (← field j "adds") do
+    match ← getArr a with
+    | [i, kL, kR, op, c, skip] =>
+      g := g.add (← getInt i) (← parseKey kL) (← parseKey kR) (← getStr op) (← getGQ c) (← getBool skip)
+    | _ => throw "bad add"
+  match fieldD j "add_missing" Json.null with
+  | .null => pure ()
+  | b => g := g.addMissingIdLIdR (← getBool b)
+  extOfGraph j g
+
+def handleExtModel (j : Json) : Except String Json := do
+  let L ← getNat (← field j "L")
+  let infinite ← getBool (fieldD j "infinite" false)
+  let explicit ← getBool (fieldD j "explicit" false)
+  let sites ← listOf parseSite (← field j "sites")
+  let calls ← getArr (← field j "calls")
+  let mut m : Model GQ := Model.empty L explicit
+  for c in calls do
+    match ← applyCall sites m c with
+    | some m' => m := m'
+    | none => pure ()
+  extOfGraph j (m.calcHGraph infinite)
+
+end ext
+
 def handle (j : Json) : Except String Json := do
   let k ← getStr (← field j "k")
   if k == "model" then handleModel j
+  else if k == "ext_graph" then handleExtGraph j
+  else if k == "ext_model" then handleExtModel j
   else if k == "noop" then return Json.null
   else throw s!"unknown kind {k}"
 
